@@ -40,6 +40,15 @@
    C09_cancel_release_race, C09_no_leak).  With cap = 0 Render never looks at
    the context: [Start r true] is in flight at once like any other.
 
+   Rounds.  The engine keeps nothing but the channel.  When every render that
+   was started has left or got the context error the channel is empty again:
+   what the acceptor still remembers ([used], [ended]) are names, not state of
+   the engine.  A further history whose renders are named past the used ones
+   ([shift d], d above every name used so far) is therefore accepted exactly as
+   the same history is accepted by a new gate (C09_round_reset).  The
+   correspondence check uses this for ROUNDS: small histories repeated many
+   times on one engine, each judged on its own with names from 1.
+
    S.  What the property demands is stated on the trace alone (functions
    [started], [entered], [left_of], [cancelled_of], [entered_not_left],
    [all_started_done]); the theorems in Proofs/GateProofs.v relate the two. *)
@@ -144,6 +153,26 @@ Definition all_started_doneb (evs : list gate_event) : bool :=
 (* the refill: [rs] all start (live contexts), then all enter *)
 Definition refill (rs : list rid) : list gate_event :=
   map (fun r => Start r false) rs ++ map Enter rs.
+
+(* a history with every render name moved up by [d] *)
+Definition shift (d : nat) (e : gate_event) : gate_event :=
+  match e with
+  | Start r b => Start (d + r) b
+  | CtxEnd r => CtxEnd (d + r)
+  | Enter r => Enter (d + r)
+  | Leave r o => Leave (d + r) o
+  | Cancel r => Cancel (d + r)
+  end.
+
+(* what is to be seen of two gates is the same up to the names moved by [d]: both
+   rejected, or the same limit and the same renders in flight and waiting *)
+Definition same_upto (d : nat) (a b : option gate_state) : Prop :=
+  match a, b with
+  | Some a, Some b => cap b = cap a /\ inflight b = map (Nat.add d) (inflight a)
+                      /\ waiting b = map (Nat.add d) (waiting a)
+  | None, None => True
+  | _, _ => False
+  end.
 
 (* same members (used by the judge to compare observed and model sets) *)
 Definition same_set (a b : list rid) : bool :=
